@@ -193,4 +193,7 @@ def run (t : Table) : List Op → Except Fault Table
     | .error e => .error e
     | .ok t' => run t' r
 
+/-- every id handed to `Update` has length `L` (20 in Go) -/
+def OpsIdLen (L : Nat) (ops : List Op) : Prop := ∀ op ∈ ops, ∀ p, op = .update p → p.id.length = L
+
 end OntVerif.Model.KBucket
